@@ -6,13 +6,14 @@
 package link
 
 import (
-	"context"
-	"net"
 	"bufio"
+	"context"
 	"errors"
 	"io"
+	"net"
 	"os"
 	"syscall"
+	"time"
 
 	"verif/sim"
 )
@@ -55,6 +56,16 @@ type Reader struct {
 	ended     bool
 	lastBuf   [][]byte // buffers handed to us (for the reuse/scribble environment behaviour)
 	KeepBufs  bool
+
+	// After says what the reader does on the calls that FOLLOW the one that
+	// reported a transport error (EndErr other than io.EOF): 0 = the error is
+	// sticky (reported again), 1 = the stream is simply at its end (io.EOF), 2 =
+	// the transport recovers and delivers the rest of the data (a timeout that
+	// was extended). A failure is a failure when it is reported: what the reader
+	// does later does not change what the failed call must lead to.
+	After    int
+	failedAt int  // calls made when the error was reported (0 = not yet)
+	Closed   bool // Close() was called on a closable view of this reader
 }
 
 func NewReader(c *sim.Ctx, data []byte, m Mode) *Reader {
@@ -133,9 +144,27 @@ func (r *Reader) Read(buf []byte) (int, error) {
 		r.c.Ev("read0", 0, 0, 0)
 		return 0, nil
 	}
+	if r.Closed {
+		r.c.Ev("read-closed", int64(len(buf)), 0, 0)
+		return 0, io.ErrClosedPipe
+	}
 	avail := r.limit - r.pos
+	if avail <= 0 && r.failedAt > 0 && r.EndErr != io.EOF && r.After != 0 {
+		// the failure was reported once already
+		if r.After == 2 && r.limit < len(r.data) {
+			r.limit = len(r.data) // the transport recovers
+			r.EndErr = io.EOF
+			r.c.Count("fault.transport-recovers-after-the-reported-error")
+			avail = r.limit - r.pos
+		} else {
+			r.c.Ev("read-end", int64(len(buf)), 0, errCode(io.EOF))
+			r.c.Count("fault.io.EOF-after-the-reported-error")
+			return 0, io.EOF
+		}
+	}
 	if avail <= 0 {
 		r.ended = true
+		r.failedAt = r.Calls
 		r.c.Ev("read-end", int64(len(buf)), 0, errCode(r.EndErr))
 		r.c.Count(endKind(r.EndErr, false))
 		return 0, r.EndErr
@@ -201,6 +230,7 @@ func (r *Reader) Read(buf []byte) (int, error) {
 	}
 	if r.pos == r.limit && r.mode.DataEOF {
 		r.ended = true
+		r.failedAt = r.Calls
 		r.c.Ev("read", int64(len(buf)), int64(n), errCode(r.EndErr))
 		r.c.Count(endKind(r.EndErr, true))
 		return n, r.EndErr
@@ -362,8 +392,27 @@ func (b *RefillBuffer) Read(p []byte) (int, error) {
 	return 0, err
 }
 
+// Conn is the reader seen as a connection: it can also be closed (and offers
+// the deadline setters of net.Conn). Closing it is the CALLER's business; after
+// Close every Read fails, as on a real connection.
+type Conn struct {
+	R             *Reader
+	DeadlineCalls int
+}
+
+func (k *Conn) Read(p []byte) (int, error) { return k.R.Read(p) }
+func (k *Conn) Close() error {
+	k.R.Closed = true
+	k.R.c.Count("note.the-reader-was-closed")
+	return nil
+}
+func (k *Conn) SetDeadline(time.Time) error     { k.DeadlineCalls++; return nil }
+func (k *Conn) SetReadDeadline(time.Time) error { k.DeadlineCalls++; return nil }
+
 func WrapReader(c *sim.Ctx, r *Reader) (io.Reader, string) {
-	switch c.T.Pick(6, 1, 1, 1, 1, 1) {
+	switch c.T.Pick(6, 1, 1, 1, 1, 1, 1) {
+	case 6:
+		return &Conn{R: r}, "connection (Read + Close + deadlines)"
 	case 5:
 		return &RefillBuffer{Src: r}, "self-refilling buffer with Len()"
 	case 1:
@@ -426,7 +475,7 @@ func (e *FaultErr) Error() string {
 	}
 	return e.Msg
 }
-func (e *FaultErr) Unwrap() error   { return e.Inner }
+func (e *FaultErr) Unwrap() error { return e.Inner }
 
 // Wire is the value the faulty reader or writer actually returns: E itself,
 // or (one time in eight) an ErrList holding E - an error whose dynamic type is
@@ -442,8 +491,8 @@ func (e *FaultErr) Wire() error {
 
 type ErrList []error
 
-func (l ErrList) Error() string   { return "several errors: " + l[0].Error() }
-func (l ErrList) Unwrap() []error { return l }
+func (l ErrList) Error() string     { return "several errors: " + l[0].Error() }
+func (l ErrList) Unwrap() []error   { return l }
 func (e *FaultErr) Timeout() bool   { return e.timeout }
 func (e *FaultErr) Temporary() bool { return e.timeout }
 
